@@ -566,7 +566,7 @@ example :
     docBodyBack d = true ∧ docInputsBack d = true ∧ namesOK d = true := by
   decide
 
-/-! ### FromV3Operation's search for a body parameter name (F-C17-15) -/
+/-! ### FromV3Operation's search for a body parameter name (F-C17-15, fixed by c26cd6a + bfa9f46) -/
 
 /-- regression (F-C17-15, body-parameter half, fixed by c26cd6a; the input of corpus f15): an operation with a body
     parameter and query parameters named `body` and `requestBody` converts back -/
@@ -583,9 +583,10 @@ theorem nameClash_regression_body :
     (match toV3 d with | .ok d3 => (match fromV3Full d3 with | .ok _ => true | _ => false) | .error _ => false) = true := by
   decide
 
-/-- witness (F-C17-15, what is left): the request body formDataBody builds carries no `x-originalParamName`, so the
-    same operation with a form parameter instead of the body parameter still makes FromV3 fail -/
-theorem nameClash_witness_form :
+/-- regression (F-C17-15, form half, fixed by bfa9f46; formerly `nameClash_witness_form`, the input of corpus f15b):
+    the request body formDataBody builds carries no `x-originalParamName`, but under a form media type its form
+    fields have their own names — the operation converts back -/
+theorem nameClash_regression_form :
     let f : Param2 Nat := { name := "f", loc := "formData", required := false, cons := { ty := some "string" },
                             items := none, schema := none }
     let q (n : String) : Param2 Nat := { name := n, loc := "query", required := false, cons := { ty := some "string" },
@@ -595,6 +596,51 @@ theorem nameClash_witness_form :
                           paths := [{ path := "/x", params := [],
                                       ops := [{ method := "post", opId := "p", consumes := ["multipart/form-data"], produces := [],
                                                 params := [.val f, .val (q "body"), .val (q "requestBody")], responses := [] }] }] }
+    (match toV3 d with | .ok d3 => (match fromV3Full d3 with | .ok _ => true | _ => false) | .error _ => false) = true := by
+  decide
+
+/-- **FromV3 never fails for want of a body parameter name** when every inline request body either carries its
+    original name or has form media types only (references and operations without a body need no name):
+    `fromV3Full` is `fromV3`. Full strength: the hypothesis is exactly "needsBodyName is false". -/
+theorem fromV3Full_no_error {V : Type} (d3 : Doc3 V)
+    (h : ∀ p ∈ d3.paths, ∀ o ∈ p.ops, needsBodyName o.body = false) :
+    fromV3Full d3 = (match fromV3 d3 with | some d2 => .ok d2 | none => .panic) := by
+  have : d3.paths.any (fun p => p.ops.any (opNameClash d3.cparams)) = false := by
+    rw [List.any_eq_false]
+    intro p hp
+    rw [Bool.not_eq_true, List.any_eq_false]
+    intro o ho
+    simp [opNameClash, h p hp o ho]
+  simp only [fromV3Full, this, Bool.false_eq_true, if_false]
+  cases fromV3 d3 <;> rfl
+
+/-- what ToV3 builds never needs the name: a body parameter with a name carries it, a form body under form media
+    types only has none to give -/
+theorem needsBodyName_toV3BodyS {V : Type} (cs : List String) (p : Param2 V) (hn : p.name ≠ "") :
+    needsBodyName (some (toV3BodyS cs p)) = false := by
+  simp [needsBodyName, toV3BodyS, hn]
+
+theorem needsBodyName_formBody {V : Type} (env : Env3 V) (cs : List String) (forms : List (String × Sch V))
+    (hcs : cs ≠ []) (hall : cs.all isFormMime = true) :
+    needsBodyName (some (.val (formBody env cs forms))) = false := by
+  have hne : cs.isEmpty = false := by cases cs <;> simp_all
+  simp only [needsBodyName, formBody, hne, Bool.false_eq_true, if_false, Bool.not_false, Bool.true_and]
+  rw [List.any_eq_false]
+  intro m hm
+  simp [List.all_eq_true.mp hall m hm]
+
+/-- the branch that remains in the code (and in the model) is outside the valid OpenAPI 2 documents: a body
+    parameter without a name, next to parameters named `body` and `requestBody` -/
+theorem nameClash_remaining_branch :
+    let b : Param2 Nat := { name := "", loc := "body", required := false, cons := {}, items := none,
+                            schema := some (.node { ty := some "object" } []) }
+    let q (n : String) : Param2 Nat := { name := n, loc := "query", required := false, cons := { ty := some "string" },
+                                          items := none, schema := none }
+    let d : Doc2 Nat := { loc := { host := "", basePath := "", schemes := [] }, consumes := [], produces := [],
+                          params := [], responses := [], defs := [], secs := [],
+                          paths := [{ path := "/x", params := [],
+                                      ops := [{ method := "post", opId := "p", consumes := [], produces := [],
+                                                params := [.val b, .val (q "body"), .val (q "requestBody")], responses := [] }] }] }
     (match toV3 d with | .ok d3 => (match fromV3Full d3 with | .error => true | _ => false) | .error _ => false) = true := by
   decide
 
